@@ -48,6 +48,8 @@ func init() {
 			{ID: "C14-R23", Title: "a verdict about a module names the module", Floor: 1, Run: verdictsAboutAModuleNameTheModule},
 			{ID: "C14-R24", Title: "an importer's failure is not taken for absence", Floor: 2, Run: importerFailuresAreNotTakenForAbsence},
 			{ID: "C14-R25", Title: "the import root is absolute whenever it can be", Floor: 1, Run: theImportRootIsAbsoluteWheneverItCanBe},
+			{ID: "C14-R26", Title: "an option of the VM sets its field whatever the value is", Floor: 3, Run: vmOptionsSetWhatTheyAreGiven},
+			{ID: "C14-R27", Title: "strings in import statements are validated by the function that accepts them", Floor: 2, Run: stringsInImportStatementsAreValidated},
 		},
 	})
 }
